@@ -90,8 +90,10 @@ def generate(ctx):
                 if sel and clear and rng.random() < 0.2:
                     sel = sel + [sel[0]]       # a name given twice: applied once, the second application finds nothing
                 ops.append({"op": "updatesome", "params": sel, "clear": clear})
-            elif r < 0.93:
+            elif r < 0.9:
                 ops.append({"op": "clear"})
+            elif r < 0.94:
+                ops.append({"op": "unbound", "which": rng.choice(["upper", "lower", "full"])})
             else:
                 ops.append({"op": "update_twice"})
         ops.append({"op": "update", "clear": True})
@@ -198,6 +200,7 @@ def run_case(ctx, desc):
 
 def _algebra(ctx, desc):
     g = torch.Generator().manual_seed(desc["seed"])
+    dd = dict(desc)      # the bound configuration in force (changes when a bound is removed mid-run)
     shape = tuple(desc["shape"])
     tdt = torch.float64 if desc["dtype"] == "float64" else torch.float32
     spy = {"calls": 0}
@@ -258,14 +261,27 @@ def _algebra(ctx, desc):
                     setattr(upd, nm, p)
                     model[nm]["pos"].append(_np(p))
                 ctx.count("contributions")
+            elif k == "unbound":
+                # documented: removing a half bound leaves the other half in force; it (or fullbound(None)) removes a full bound
+                for nm in upd.names:
+                    acc = getattr(upd, nm)
+                    {"upper": acc.upperbound, "lower": acc.lowerbound, "full": acc.fullbound}[op["which"]](None)
+                h = dd["half"]
+                if op["which"] == "full" or h == "full":
+                    dd["half"] = "none"
+                elif op["which"] == "upper":
+                    dd["half"] = {"both": "lower", "upper": "none"}.get(h, h)
+                else:
+                    dd["half"] = {"both": "upper", "lower": "none"}.get(h, h)
+                ctx.count("bound_removals")
             elif k in ("update", "updatesome", "update_twice"):
                 names = list(pshape) if k != "updatesome" else op["params"]
                 exp = dict(cur)
                 scale = {}
                 for nm in names:
-                    exp[nm] = _expected(desc, cur[nm], model[nm]["pos"], model[nm]["neg"], mx, mn)
-                    up = _expected(desc, cur[nm], model[nm]["pos"], [], mx, mn) - cur[nm]
-                    lo = cur[nm] - _expected(desc, cur[nm], [], model[nm]["neg"], mx, mn)
+                    exp[nm] = _expected(dd, cur[nm], model[nm]["pos"], model[nm]["neg"], mx, mn)
+                    up = _expected(dd, cur[nm], model[nm]["pos"], [], mx, mn) - cur[nm]
+                    lo = cur[nm] - _expected(dd, cur[nm], [], model[nm]["neg"], mx, mn)
                     with np.errstate(all="ignore"):
                         scale[nm] = float(np.nanmax(np.abs(cur[nm]) + np.abs(up) + np.abs(lo)))
                 # outside the kernels' domain (fractional power of a negative distance, overflow): no oracle
